@@ -432,6 +432,8 @@ impl<T, L: Lock> Drop for SharedObservable<T, L> {
             // If there are no other clones, obtaining a read lock can't fail.
             L::read_noblock(&self.state).close();
         }
+        #[cfg(feature = "__verif_hooks")]
+        crate::verif::pause("shared_drop:decided");
     }
 }
 
@@ -453,6 +455,8 @@ impl<T, L: Lock> WeakObservable<T, L> {
     /// Returns `None` if the inner value has already been dropped.
     pub fn upgrade(&self) -> Option<SharedObservable<T, L>> {
         let state = Weak::upgrade(&self.state)?;
+        #[cfg(feature = "__verif_hooks")]
+        crate::verif::pause("upgrade:between");
         let _num_clones = Weak::upgrade(&self._num_clones)?;
         Some(SharedObservable { state, _num_clones })
     }
